@@ -1,12 +1,16 @@
 #!/bin/bash
-# copies the deliverables of a finished sub-agent (/tmp/mut/<id>/MUTANT) into /verif/seeded/<id>{A,B}
+# tools/import_mutants.sh <root of agent worktrees> <suffix for A> <suffix for B> <id>...
+# copies the deliverables of finished sub-agents (<root>/<id>/MUTANT) into /verif/seeded/<id><suffix>
+ROOT="$1"; SA="$2"; SB="$3"; shift 3
 for id in "$@"; do
-  for ab in A B; do
-    src=/tmp/mut/$id/MUTANT
+  for pair in "A:$SA" "B:$SB"; do
+    ab=${pair%%:*}; suf=${pair##*:}
+    src=$ROOT/$id/MUTANT
     [ -f $src/$ab.diff ] || { echo "missing $src/$ab.diff"; continue; }
-    d=/verif/seeded/$id$ab; mkdir -p $d
+    d=/verif/seeded/$id$suf; mkdir -p $d
     cp $src/$ab.diff $d/patch.diff
-    for f in $src/demo_$ab*; do [ -e "$f" ] && cp "$f" $d/; done
+    cp $src/demo_$ab.cpp $d/demo.cpp 2>/dev/null
+    for f in $src/*.hpp $src/*.h; do [ -e "$f" ] && cp "$f" $d/; done
     cp $src/NOTES.md $d/NOTES.md
   done
 done
